@@ -160,7 +160,7 @@ package net
 //@   ensures[C17] at_unlock(len(e.handlers)) == at_lock(len(e.handlers)) && forall i int {at_unlock(e.handlers[i])} :: 0 <= i && i < at_lock(len(e.handlers)) && (i != id || err != nil) ==> at_unlock(e.handlers[i]) == at_lock(e.handlers[i])
 
 //@ func (e *endPoint) MakeHandler(f Filter, queue chan<- *Message, cl Closer) (result int)
-//@   tags C17
+//@   tags C17 C10
 //@   requires !e.handlersMutex.lockw
 //@   requires queue != nil && !queue.chclosed && !queue.chowned
 //@   modifies everything
